@@ -277,6 +277,59 @@ func (e *env) check(after string) (sig, msg string, inconclusive bool) {
 	return "", "", false
 }
 
+// killWatch kills member m and watches the configuration for `watch`. Disappearance is a violation
+// if the timeout of m's role is 0/1h (whenever it happens) or if it happens earlier than reapEarly
+// after the kill.
+func (e *env) killWatch(m *member, opts vnode.Options, watch time.Duration, fail func(sig, msg string)) {
+	timeout := opts.ReapTimeout
+	role := "voter"
+	if !m.voter {
+		timeout, role = opts.ReapReadOnlyTimeout, "nonvoter"
+	}
+	e.c.Crash(m.node)
+	m.alive = false
+	m.deadAt = time.Now()
+	killed := time.Now()
+	e.trace = append(e.trace, fmt.Sprintf("kill %s (%s, reap timeout %v)", m.id, role, timeout))
+	gone := time.Duration(-1)
+	for time.Since(killed) < watch {
+		cl := e.c.LeaderNow()
+		if cl != nil {
+			if cfg, err := vnode.Config(cl); err == nil {
+				if s, mm := uniq(cfg); s != "" {
+					fail(s, mm+" while watching reaping: "+strings.Join(cfg, " "))
+				}
+				present := false
+				for _, s := range cfg {
+					if strings.HasPrefix(s, m.id+"@") {
+						present = true
+					}
+				}
+				if !present {
+					gone = time.Since(killed)
+					break
+				}
+			}
+		}
+		time.Sleep(40 * time.Millisecond)
+	}
+	switch {
+	case gone < 0:
+		e.rec.Label(fmt.Sprintf("kill:%s:timeout=%v:stayed", role, timeout))
+	case timeout == 0 || timeout >= time.Hour:
+		fail("C32/reaped-with-wrong-timeout", fmt.Sprintf("%s %s disappeared from the configuration %v after it was killed although the reap timeout for its role is %v (other role: %v)",
+			role, m.id, gone.Round(time.Millisecond), timeout, map[string]time.Duration{"voter": opts.ReapReadOnlyTimeout, "nonvoter": opts.ReapTimeout}[role]))
+	case gone < reapEarly:
+		fail("C32/reaped-too-early", fmt.Sprintf("%s %s disappeared %v after it was killed; reap timeout for its role is %v", role, m.id, gone.Round(time.Millisecond), timeout))
+	default:
+		e.rec.Label(fmt.Sprintf("kill:%s:timeout=%v:reaped", role, timeout))
+		delete(e.model, m.id)
+		if sig, msg, inc := e.check("reaping of " + m.id); !inc && sig != "" {
+			fail(sig, msg)
+		}
+	}
+}
+
 func (e *env) join(n *vnode.Node, id, addr string, voter bool) error {
 	via := e.via()
 	if via == nil {
@@ -651,54 +704,8 @@ func TestVerif_C32_Hist(t *testing.T) {
 			l := e.leader()
 			m := e.pickMember(p.KillSel, func(m *member) bool { return m.alive && m.node != l })
 			if l != nil && m != nil && (!m.voter || e.canStopVoter()) {
-				timeout := opts.ReapTimeout
-				role := "voter"
-				if !m.voter {
-					timeout, role = opts.ReapReadOnlyTimeout, "nonvoter"
-				}
-				e.c.Crash(m.node)
-				m.alive = false
-				m.deadAt = time.Now()
-				killed := time.Now()
-				e.trace = append(e.trace, fmt.Sprintf("kill %s (%s, reap timeout %v)", m.id, role, timeout))
-				gone := time.Duration(-1)
-				for time.Since(killed) < reapWatch {
-					cl := e.c.LeaderNow()
-					if cl != nil {
-						if cfg, err := vnode.Config(cl); err == nil {
-							if s, mm := uniq(cfg); s != "" {
-								fail(s, mm+" while watching reaping: "+strings.Join(cfg, " "))
-							}
-							present := false
-							for _, s := range cfg {
-								if strings.HasPrefix(s, m.id+"@") {
-									present = true
-								}
-							}
-							if !present {
-								gone = time.Since(killed)
-								break
-							}
-						}
-					}
-					time.Sleep(40 * time.Millisecond)
-				}
+				e.killWatch(m, opts, reapWatch, fail)
 				interesting = true
-				switch {
-				case gone < 0:
-					rec.Label(fmt.Sprintf("kill:%s:timeout=%v:stayed", role, timeout))
-				case timeout == 0 || timeout >= time.Hour:
-					fail("C32/reaped-with-wrong-timeout", fmt.Sprintf("%s %s disappeared from the configuration %v after it was killed although the reap timeout for its role is %v (other role: %v)",
-						role, m.id, gone.Round(time.Millisecond), timeout, map[string]time.Duration{"voter": opts.ReapReadOnlyTimeout, "nonvoter": opts.ReapTimeout}[role]))
-				case gone < reapEarly:
-					fail("C32/reaped-too-early", fmt.Sprintf("%s %s disappeared %v after it was killed; reap timeout for its role is %v", role, m.id, gone.Round(time.Millisecond), timeout))
-				default:
-					rec.Label(fmt.Sprintf("kill:%s:timeout=%v:reaped", role, timeout))
-					delete(e.model, m.id)
-					if sig, msg, inc := e.check("reaping of " + m.id); !inc && sig != "" {
-						fail(sig, msg)
-					}
-				}
 			}
 		}
 		rec.Case(interesting, p.String())
